@@ -126,8 +126,19 @@ func (s *session) delete() error {
 			continue
 		}
 		if unescapedKey != "" {
+			// Only delete the record if it still belongs to this session, and make the
+			// delete conditional, in case the record gets overwritten in the meantime
+			current, err := s.sm.leaderController.db.Get(&proto.GetRequest{Key: unescapedKey})
+			if err != nil {
+				return err
+			}
+			if current.Status != proto.Status_OK || current.Version.SessionId == nil ||
+				*current.Version.SessionId != int64(s.id) {
+				continue
+			}
 			deletes = append(deletes, &proto.DeleteRequest{
-				Key: unescapedKey,
+				Key:               unescapedKey,
+				ExpectedVersionId: &current.Version.VersionId,
 			})
 		}
 	}
